@@ -76,6 +76,45 @@ Theorem C13_code_truncated_is_error : forall (rd : go_reader) (n : Z),
 Proof. exact truncated_is_error. Qed.
 Print Assumptions C13_code_truncated_is_error.
 
+(** * encoder.go over an abstract writer *)
+
+Theorem C13_code_encoder_u64_is_model : forall out n v, 0 <= n -> n + 8 < two63z -> (v < two64)%N ->
+  gen_sniproxy_encoder_u64 (wr_ok out) n None (Z.of_N v) = GoOk (n + 8, None, wr_ok (out ++ enc_value KU64 (VU64 v))).
+Proof. exact enc_u64_ok. Qed.
+Print Assumptions C13_code_encoder_u64_is_model.
+
+Theorem C13_code_encoder_bytes_is_model : forall out n bs, 0 <= n -> n + 8 + go_len bs < two63z ->
+  gen_sniproxy_encoder_bytes (wr_ok out) n None bs = GoOk (n + 8 + go_len bs, None, wr_ok (out ++ enc_bytes bs)).
+Proof. exact enc_bytes_ok. Qed.
+Print Assumptions C13_code_encoder_bytes_is_model.
+
+Theorem C13_code_encoder_str_is_model : forall out n s, 0 <= n -> n + 8 + go_len s < two63z ->
+  gen_sniproxy_encoder_str (wr_ok out) n None s = GoOk (n + 8 + go_len s, None, wr_ok (out ++ enc_value KStr (VBytes s))).
+Proof. exact enc_str_ok. Qed.
+Print Assumptions C13_code_encoder_str_is_model.
+
+Theorem C13_code_encoder_u8_is_model : forall out n v, 0 <= n -> n + 1 < two63z ->
+  gen_sniproxy_encoder_u8 (wr_ok out) n None (Z.of_N v) = GoOk (n + 1, None, wr_ok (out ++ [v])).
+Proof. exact enc_u8_ok. Qed.
+Print Assumptions C13_code_encoder_u8_is_model.
+
+(** The encoder's error is sticky, and a failing Write takes nothing. *)
+Theorem C13_code_encoder_sticky : forall w n e (v : Z) (bs : list N), e <> None ->
+  gen_sniproxy_encoder_write w n e bs = GoOk (n, e, w) /\
+  gen_sniproxy_encoder_u64 w n e v = GoOk (n, e, w) /\
+  gen_sniproxy_encoder_u8 w n e v = GoOk (n, e, w) /\
+  gen_sniproxy_encoder_bytes w n e bs = GoOk (n, e, w) /\
+  gen_sniproxy_encoder_str w n e bs = GoOk (n, e, w).
+Proof. exact enc_sticky. Qed.
+Print Assumptions C13_code_encoder_sticky.
+
+(** What the generated encoder writes, the generated decoder reads back from
+    any chunking of it. *)
+Theorem C13_code_enc_dec_u64 : forall v cs flag, (v < two64)%N -> concat cs = enc_value KU64 (VU64 v) ->
+  run_u64 (mkReader cs flag) 0 None = Some (Z.of_N v, ([], 8%N, 0%N)).
+Proof. exact enc_dec_u64. Qed.
+Print Assumptions C13_code_enc_dec_u64.
+
 (** Non-vacuity: three trailing bytes, two of them arriving with io.EOF. *)
 Example C13_code_end_example :
   gen_sniproxy_decoder_end (mkReader [[1%N]; []; [2%N; 3%N]] true) None 0
